@@ -4,6 +4,8 @@ from rulelib import *
 from facts import op_int, op_local, op_place, const_int
 import loaderlib as L
 
+THOROUGH_CFGS = ('min_none', 'min_rten', 'min_onnx')   # reduced-feature builds of the rten crate (thorough tier)
+
 EXPLANATION = (
     "Ownership discipline of the executor (Graph::run_plan and its closures), decided for every path: (inplace-gate) every "
     "site that removes a value from the temporary-value map or takes a by-value capture is classified - taken for an "
